@@ -10,6 +10,8 @@ import (
 	"sort"
 	"strings"
 	"time"
+
+	"golang.org/x/tools/go/ssa"
 )
 
 type unitRun struct {
@@ -160,6 +162,24 @@ func runUnit(w *World, u *unitRun, tmp string, quickT, slowT int, verbose bool) 
 	if err := g.Run(); err != nil {
 		u.Err = err
 		return
+	}
+	if os.Getenv("GOVC_ANCHORS") != "" {
+		// print the anchors a contract can refer to: return ordinals, loop ordinals, call sites
+		n := 0
+		for _, b := range fn.Blocks {
+			for _, in := range b.Instrs {
+				if r, ok := in.(*ssa.Return); ok {
+					n++
+					fmt.Fprintf(os.Stderr, "  anchor %s ret%d at line %d\n", u.Unit, n, w.fset.Position(r.Pos()).Line)
+				}
+			}
+		}
+		for _, li := range g.loopOfHeader {
+			fmt.Fprintf(os.Stderr, "  anchor %s loop %d at line %d\n", u.Unit, li.ordinal, w.fset.Position(g.loopPos(li.header)).Line)
+		}
+		for name, c := range g.callCount {
+			fmt.Fprintf(os.Stderr, "  anchor %s calls %s x%d\n", u.Unit, name, c)
+		}
 	}
 	// loops named in the contract must exist
 	for n := range u.Fc.Loops {
